@@ -16,7 +16,7 @@ def _compute(tier, seed):
     if problems:
         raise MachineryError('interpretation table self-test: %s' % problems)
     runs = []
-    cfgs = ['LogLik_quick.cfg'] if tier == 'quick' else ['LogLik_allkinds.cfg', 'LogLik_thorough.cfg']
+    cfgs = ['LogLik_quick.cfg', 'LogLik_quick3.cfg'] if tier == 'quick' else ['LogLik_allkinds.cfg', 'LogLik_thorough.cfg']
     records = {}
     for cfg in cfgs:
         r = tlc.run('LogLik', cfg, coverage=(tier == 'quick'))
